@@ -798,7 +798,51 @@ def r10_16(chk):
     chk.floor("R10.16", 1, "annotation db to_rich_dict")
 
 
+SER_MUTATORS = {"pop", "popitem", "update", "clear", "setdefault", "append", "extend", "remove", "insert", "sort", "reverse"}
+
+
+def r10_17(chk):
+    chk.rule("R10.17", "serialising an object leaves it as it was: no to_rich_dict / to_json / __getstate__ mutates (pop / update / item store / del ...) an attribute of self, directly or through a local bound to that attribute (`info = {} if self.info is None else self.info; info.pop('Refs')` removes the references from the LIVE info object, so the object differs after being written and a second serialisation differs from the first)")
+    n = 0
+    for mod in chk.repo.all_modules():
+        if not any(w in mod.source for w in ("to_rich_dict", "__getstate__")):
+            continue
+        for q, fn in mod.all_functions():
+            if not q.endswith(("to_rich_dict", "to_json", "__getstate__")):
+                continue
+            aliases = {}
+            for st in walk_no_nested(fn):
+                if isinstance(st, ast.Assign) and len(st.targets) == 1 and isinstance(st.targets[0], ast.Name):
+                    v = st.value
+                    arms = [v] + ([v.body, v.orelse] if isinstance(v, ast.IfExp) else [])
+                    if any(isinstance(a, ast.Attribute) and isinstance(a.value, ast.Name) and a.value.id == "self" for a in arms):
+                        aliases.setdefault(st.targets[0].id, []).append(st)
+            n += 1
+            bad = None
+            for x in walk_no_nested(fn):
+                tgt = None
+                if isinstance(x, ast.Call) and isinstance(x.func, ast.Attribute) and x.func.attr in SER_MUTATORS:
+                    tgt = x.func.value
+                elif isinstance(x, (ast.Assign, ast.AugAssign, ast.Delete)):
+                    tg = x.targets if isinstance(x, (ast.Assign, ast.Delete)) else [x.target]
+                    for t in tg:
+                        if isinstance(t, ast.Subscript):
+                            tgt = t.value
+                if tgt is None:
+                    continue
+                if isinstance(tgt, ast.Name) and tgt.id in aliases:
+                    # a re-binding of the local to a fresh value between the alias and the mutation clears it
+                    rebinds = [st for st in walk_no_nested(fn) if isinstance(st, ast.Assign) and any(isinstance(t, ast.Name) and t.id == tgt.id for t in st.targets) and st not in aliases[tgt.id] and aliases[tgt.id][0].lineno < st.lineno < x.lineno]
+                    if not rebinds:
+                        bad = (x, f"`{tgt.id}` is bound to {norm(aliases[tgt.id][0].value)[:50]}")
+                elif isinstance(tgt, ast.Attribute) and isinstance(tgt.value, ast.Name) and tgt.value.id == "self":
+                    bad = (x, f"an attribute of self")
+            chk.decide(bad is None, "R10.17", key(mod, q, "does not modify the object"), mod.loc(bad[0] if bad else fn), "no mutation of self state", f"`{norm(bad[0])[:60] if bad else ''}` edits the object being serialised ({bad[1] if bad else ''}): make_seq('ACGT', info={{'Refs': ..., 'k': 2}}).to_rich_dict() leaves the sequence without its 'Refs'")
+    chk.floor("R10.17", 30, "serialiser methods of the package")
+
+
 def run(chk):
+    r10_17(chk)
     r10_16(chk)
     r10_15(chk)
     r10_14(chk)
